@@ -207,6 +207,10 @@ def extract_from_template(
     _keywords = keywords or DEFAULT_KEYWORDS
     ctx = RenderContext(template)
 
+    if not template.nodes:
+        # An empty template has no messages.
+        return
+
     _line_number = line_number_factory(template.nodes[0].token.source)
 
     def visit_expression(expr: Expression, lineno: int) -> Iterator[MessageTuple]:
